@@ -770,6 +770,19 @@ impl TypeAggregator {
                     .with_context(|| format!("failed to merge interface `{name}`"))?;
                 // Also register this name so it can be looked up directly
                 self.interfaces.insert(name.clone(), existing);
+                // The merged interface is named for the highest version merged into
+                // it, whatever the order in which the versions were seen.
+                if let Some((_, version)) = alternate_lookup_key(name) {
+                    let lower = match self.types[existing].id.as_deref() {
+                        Some(current) => alternate_lookup_key(current)
+                            .map(|(_, current)| current < version)
+                            .unwrap_or(false),
+                        None => false,
+                    };
+                    if lower {
+                        self.types[existing].id = Some(name.clone());
+                    }
+                }
                 return Ok(existing);
             }
         }
